@@ -129,6 +129,17 @@ func Judge(cfg Config, recs []*ConnRec) []Finding {
 				out = append(out, Finding{"session-offered-after-fatal-alert/client", fmt.Sprintf("%s: session %x is offered again on conn%d after the client sent fatal alert %d on it", at, sid, recs[k+1].Idx, a&0xff)})
 			}
 		}
+		// ... also the session that this very connection established (full handshake): the client files it under
+		// the ServerHello's session_id
+		if a, ok := r.Wire.fatal(true); ok && r.Wire.SawSH && len(r.Wire.ServerSID) > 0 && !bytes.Equal(r.Wire.ServerSID, r.Wire.OfferedSID) {
+			sid := r.Wire.ServerSID
+			if hasID(r.PostC, sid) {
+				out = append(out, Finding{"session-kept-after-fatal-alert/client", fmt.Sprintf("%s: the client sent fatal alert %d on the connection that established session %x, yet its store holds that session afterwards", at, a&0xff, sid)})
+			}
+			if k+1 < len(recs) && bytes.Equal(recs[k+1].Wire.OfferedSID, sid) {
+				out = append(out, Finding{"session-offered-after-fatal-alert/client", fmt.Sprintf("%s: session %x, established on a connection on which the client sent fatal alert %d, is offered on conn%d", at, sid, a&0xff, recs[k+1].Idx)})
+			}
+		}
 		if a, ok := r.Wire.fatal(false); ok && r.Wire.SawSH && len(r.Wire.ServerSID) > 0 {
 			sid := r.Wire.ServerSID
 			if _, has := r.PostS[string(sid)]; has {
